@@ -126,3 +126,14 @@ contract('gnpy.core.elements.RamanFiber.propagate', props=['C05', 'C01'], overri
                    ('self.pch_out_dbm', vec_len('NCH(spectral_info)')), 'self.propagated_labels', 'self.actual_raman_gain'],
          use_at_calls=False,
          note='RamanSolver.calculate_stimulated_raman_scattering / calculate_spontaneous_raman_scattering are opaque (ghost results)')
+
+# accumulated chromatic dispersion of one fibre: D(f) L with D = -(beta2 + 2 pi beta3 (f - f_ref)) 2 pi f_ref^2 / c
+contract('gnpy.core.elements.Fiber.beta3', name='gnpy.core.elements.Fiber.beta3[call-site summary]', trusted=True, props=[],
+         params={'self': FIBER, 'frequency': vec('n')}, ensures=[], returns=vec_len('len(frequency)'), pure=True,
+         note='ASSUMED pure per-channel coefficient of the fibre')
+contract('gnpy.core.elements.Fiber.chromatic_dispersion', props=['C05'],
+         params={'self': FIBER, 'freq': vec('n')},
+         let={'b2': 'self.beta2(freq)', 'b3': 'self.beta3(freq)', 'fr': 'self.params._ref_frequency', 'c0': '299792458'},
+         ensures=[('dispersion_times_length', 'forall(lambda i: at(result, i) == -(b2[i] + 2 * pi * b3[i] * (freq[i] - fr)) * 2 * pi * fr ** 2 / c0 '
+                                              '* self.params._length, len(freq))')],
+         use_at_calls=False, modifies=[])
